@@ -68,6 +68,28 @@ theorem appends_realloc_log (a : Arr) (xs : List Nat) (m : Mem) (hinv : a.Inv) (
     (a.addAll xs m).2.nalloc - m.nalloc ≤ Nat.log2 (a.size + xs.length) + 1 :=
   (Arr.addAll_realloc_log a xs m hinv hlive hd).1
 
+/-- **`trim_minimum`**: the documented minimum `max size 1`, never below the element count, content
+and size untouched, whatever the capacity was -/
+theorem trim_minimum (a : Arr) (m : Mem) (hinv : a.Inv) (hlive : 0 < m.live) (hok : (a.trimCapacity m).1 = .ok) :
+    (a.trimCapacity m).2.1.capacity = max a.size 1 ∧ a.size ≤ (a.trimCapacity m).2.1.capacity ∧
+    (a.trimCapacity m).2.1.abs = a.abs ∧ (a.trimCapacity m).2.1.size = a.size ∧ (a.trimCapacity m).2.1.Inv := by
+  rcases (Arr.trimCapacity_spec a m hinv hlive).1 with ⟨_, h1, h2, h3, h4, _⟩ | ⟨e, _⟩
+  · exact ⟨h3, by rw [h3]; omega, h1, h2, h4⟩
+  · rw [e] at hok; simp at hok
+
+/-- **the concrete append process is `CC.Growth.appends`** (`Proofs/Growth.lean`): on an allocator
+that never refuses, with a growth function that at least doubles and stays below the byte-size limit,
+`n` appends leave exactly the abstract process's size and capacity and perform exactly its number of
+buffer allocations — hence at most `log2 (size + n) + 1` -/
+theorem appends_is_growth_process (a : Arr) (xs : List Nat) (m : Mem) (hinv : a.Inv) (hlive : 0 < m.live)
+    (hs : m.sched = []) (hd : ∀ c, 2 * c ≤ a.grow c) (hb : ∀ c, a.grow c ≤ Gen.CC_MAX_ELEMENTS / 8) :
+    (a.addAll xs m).1.size = (Growth.appends a.grow a.size a.capacity xs.length).size ∧
+    (a.addAll xs m).1.capacity = (Growth.appends a.grow a.size a.capacity xs.length).cap ∧
+    (a.addAll xs m).2.nalloc - m.nalloc = (Growth.appends a.grow a.size a.capacity xs.length).reallocs ∧
+    (Growth.appends a.grow a.size a.capacity xs.length).reallocs ≤ Nat.log2 (a.size + xs.length) + 1 := by
+  obtain ⟨h1, h2, h3⟩ := Arr.addAll_eq_appends xs a m hinv hlive hs hd hb
+  exact ⟨h1, h2, by omega, Growth.reallocs_le_log a.grow hd a.size a.capacity xs.length hinv.1 hinv.2.2.1⟩
+
 /-- the stack inherits all of it: push = add -/
 theorem stack_push_capacity (s : Stack) (x : Nat) (m : Mem) (hinv : s.Inv) (hlive : 0 < m.live) :
     s.v.capacity ≤ (s.push x m).2.1.v.capacity ∧ (s.push x m).2.1.v.size ≤ (s.push x m).2.1.v.capacity := by
